@@ -199,7 +199,7 @@ impl Basic {
         if opts.idle_off {
             sk.idle_ms = None;
             ck.idle_ms = None;
-        } else {
+        } else if !opts.idle_choices.is_empty() {
             sk.idle_ms = *w.ch.pick("basic.idle_s", &opts.idle_choices);
             ck.idle_ms = *w.ch.pick("basic.idle_c", &opts.idle_choices);
         }
